@@ -93,6 +93,18 @@ impl Executor for StatefulExecutor {
             // apply document-wide testcase defaults
             testcase.config = testcase.config.with_defaults_from(&context.config.defaults);
 
+            // waiting on previous execution: the wait counts against the per-document
+            // timeout, it ends when that does and what is left is determined after it
+            if let Some(ref wait) = testcase.config.wait {
+                debug!("waiting {}", wait);
+                let wait_timeout = timeout_left().map_or(wait.timeout, |left| wait.timeout.min(left));
+                if let Some(ref path) = wait.path {
+                    wait_until_path_or_time(&context.temp_directory.join(path), wait_timeout)
+                } else {
+                    sleep(wait_timeout);
+                }
+            }
+
             // timeout is whatever the lowest provided value of:
             // - global (over all executions) timeout
             // - local (per execution) timeout
@@ -113,16 +125,6 @@ impl Executor for StatefulExecutor {
             .map_or((false, None), |t| (t.is_global, Some(t.timeout)));
             let span = trace_span!("execution", expression = &testcase.shell_expression, timeout = ?&timeout);
             let _enter = span.enter();
-
-            // waiting on previous execution
-            if let Some(ref wait) = testcase.config.wait {
-                debug!("waiting {}", wait);
-                if let Some(ref path) = wait.path {
-                    wait_until_path_or_time(&context.temp_directory.join(path), wait.timeout)
-                } else {
-                    sleep(wait.timeout);
-                }
-            }
 
             // set timeout and identifying environment variable
             testcase.config.timeout = timeout;
